@@ -67,7 +67,7 @@ class C20(Check):
         "a second PjRpcMocker patching another client class is alive during every case (with patches for the same endpoints): mockers are independent objects",
     ]
     trusted_base = ['deque model in checks/c20.py']
-    required_classes = ['op/add', 'op/replace', 'op/replace/index-from-the-back', 'op/remove-method', 'op/remove-endpoint', 'op/reset', 'op/call', 'op/batch', 'patch/result',
+    required_classes = ['batch/with-notification', 'op/add', 'op/replace', 'op/replace/index-from-the-back', 'op/remove-method', 'op/remove-endpoint', 'op/reset', 'op/call', 'op/batch', 'patch/result',
                         'patch/error', 'patch/callback', 'once', 'round-robin>=2', 'passthrough/on', 'passthrough/off', 'target/sync',
                         'target/async', 'target/requests', 'unpatched-method', 'unpatched-endpoint', 'id/0', 'callback-raised', 'op/notify-unpatched-endpoint', 'op/notify-patched-method', 'patch/own-id']
 
@@ -95,7 +95,7 @@ class C20(Check):
             st.builds(lambda e, m, p, i: ['call', e, m, p, i], s_ep, st.sampled_from([0, 0, 0, 1, 2]), s_params, s_id),
             st.builds(lambda e, m, p: ['notify', e, m, p], s_ep, st.sampled_from([0, 1, 2]), s_params),
             st.builds(lambda e, els: ['batch', e, [list(x) for x in els]], s_ep,
-                      st.lists(st.tuples(st.sampled_from([0, 0, 1, 2]), s_params), min_size=1, max_size=3)),
+                      st.lists(st.tuples(st.sampled_from([0, 0, 1, 2]), s_params, st.sampled_from([False, False, False, True])), min_size=1, max_size=3)),
         )
         # structured scenario: several patches on one pair, a replace / remove at a chosen position, then a full rotation of calls
         def scenario(e, m, patches, onces, idx, newp, newonce, extra):
@@ -198,19 +198,21 @@ class C20(Check):
             kwargs = dict(params) if isinstance(params, dict) else {}
             record.setdefault((ep, m), []).append((args, kwargs))
             p = patch['patch']
+            # a request without an id (notification) has no id to carry: the reply has a null id or the id configured on the patch
+            alt = {'id_alt': p['patch_id']} if rid is None and 'patch_id' in p else {}
             if p['kind'] == 'result':
-                return {'jsonrpc': '2.0', 'id': rid, 'result': p['value']}
+                return {'jsonrpc': '2.0', 'id': rid, 'result': p['value'], **alt}
             if p['kind'] == 'error':
                 e = {'code': p['code'], 'message': p['message']}
                 if 'data' in p:
                     e['data'] = p['data']
-                return {'jsonrpc': '2.0', 'id': rid, 'error': e}
+                return {'jsonrpc': '2.0', 'id': rid, 'error': e, **alt}
             if p['kind'] == 'callback-raises':
                 return {'raises': patch['serial']}
             return {'jsonrpc': '2.0', 'id': rid, 'result': {'cb': patch['serial'], 'args': args, 'kwargs': kwargs}}
 
         def cmp_response(exp: Dict[str, Any], got: Any, what: str) -> None:
-            if not isinstance(got, dict) or not jg.jeq(got.get('id', '<missing>'), exp['id']):
+            if not isinstance(got, dict) or not (jg.jeq(got.get('id', '<missing>'), exp['id']) or ('id_alt' in exp and jg.jeq(got.get('id', '<missing>'), exp['id_alt']))):
                 discs.append(Disc("C20/reply-id", f"{what}: got {jg.short(got)} expected id {exp['id']!r} | {where}"))
                 return
             if 'result' in exp:
@@ -312,14 +314,24 @@ class C20(Check):
                         if m_ in model[ep]:
                             if model[ep][m_][0]['patch']['kind'] == 'callback-raises':
                                 continue
-                            expect_element(ep, m_, op[3], None)
+                            exp_n = expect_element(ep, m_, op[3], None)
                             classes.add('op/notify-patched-method')
+                        else:
+                            exp_n = None
                         try:
                             r_ = clients[ci]._request(text, True, **tkw)
                             if is_async:
-                                hm.run_coro(r_)
-                        except BaseException:  # noqa
-                            pass
+                                r_ = hm.run_coro(r_)
+                        except BaseException as e:  # noqa
+                            if exp_n is not None:
+                                discs.append(Disc(f"C20/notification-to-patched-method-raised/{type(e).__name__}", f"{e!r} for {text!r} | {where}"))
+                            r_ = None
+                        if exp_n is not None and r_:
+                            # whatever the mocker hands back for a notification must be the patch's reply, not one made for another request
+                            try:
+                                cmp_response(exp_n, json.loads(r_), f"notification {text}")
+                            except ValueError:
+                                discs.append(Disc("C20/reply-not-json", f"{r_!r} | {where}"))
                         evaluations += 1
                         continue
                     classes.add('op/notify-unpatched-endpoint')
@@ -347,10 +359,15 @@ class C20(Check):
                         if op[4] == 0 and not isinstance(op[4], bool):
                             classes.add('id/0')
                     else:
-                        els = [(METHODS[m], p, 100 + n) for n, (m, p) in enumerate(op[2])]
+                        # a third item marks the element as a notification (no id member)
+                        els = [(METHODS[x[0]], x[1], None if len(x) > 2 and x[2] else 100 + n) for n, x in enumerate(op[2])]
+                        if any(rid is None for _, _, rid in els):
+                            classes.add('batch/with-notification')
                     docs_ = []
                     for m, p, rid in els:
                         d: Dict[str, Any] = {'jsonrpc': '2.0', 'method': m, 'id': rid}
+                        if k == 'batch' and rid is None:
+                            del d['id']
                         if p is not None:
                             d['params'] = p
                         docs_.append(d)
@@ -396,6 +413,10 @@ class C20(Check):
                         break
                     if k == 'call':
                         cmp_response(expected[0], got, f"call {text}")
+                    elif isinstance(got, list) and len(got) != len(expected) and len(got) == len([e for e in expected if e['id'] is not None]) and k == 'batch':
+                        # replies for the calls only (nothing for the notifications of the batch) is element-wise too
+                        for n, (e, g) in enumerate(zip([e for e in expected if e['id'] is not None], got)):
+                            cmp_response(e, g, f"batch call {n} of {text}")
                     elif not isinstance(got, list) or len(got) != len(expected):
                         discs.append(Disc("C20/batch-shape", f"got {jg.short(got)} for {text!r} | {where}"))
                     else:
